@@ -17,7 +17,7 @@ LEVEL = 'exploration'
 RULE = ('designs of 1-3 library cells (3 libraries, with flip-flop, fan-out, escaped instance names) x branchforks x SDF ASTs: all subsets of IOPATH entries in file order, all permutations of the '
         'full set, duplicates; per entry edge qualifier {none,posedge,negedge} x value form {(r)(f), (r), ()(f), (r)()} by single deviation (pairs in thorough); CELL grouping {one block per '
         'instance, instance split over two blocks, interleaved blocks} x CELL layout {one DELAY section, one per entry, TIMINGCHECK between two sections, DELAY before INSTANCE, empty DELAY section first, all header entries + comments, single line, TIMESCALE 100 ps / 1us / absent}; the same DelayFile object also annotates the design parsed with the other branch-fork setting; INTERCONNECT entries port-to-pin / pin-to-pin with and without fan-out / zero-valued, in one or two top-level blocks; '
-        'every entry carries distinct min:typ:max numbers, also written as integers, negative numbers and with empty fields; distinct_nontrivial = distinct (design, SDF text) pairs with a non-zero expected array')
+        'every entry carries distinct min:typ:max numbers, also written as integers, with negative numbers (mixed and all-negative) and with empty fields; distinct_nontrivial = distinct (design, SDF text) pairs with a non-zero expected array')
 ASSUMPTIONS = ['entries are applied in file order (a later entry for the same line/polarity overwrites an earlier one); the output pin of an IOPATH does not select a different line',
                'without branch forks a single-reader interconnect may be annotated on either of the two lines between the pins (both readings of "sole line" accepted)',
                'library pin tables trusted (C19); two delay values per list at most (documented limit)']
@@ -45,12 +45,14 @@ def vals(idx, vfmt='float'):
     if vfmt == 'int': r, f = [a, a + 1, a + 2], [a + 3, a + 4, a + 5]
     elif vfmt == 'neg': r, f = [-a, -a + .25, a + .5], [a + 1, -(a + 1.25), -0.5]
     elif vfmt == 'empty_fields': r, f = [0, 0, a + .5], [a + 1, 0, a + 1.5]       # written as (::x) and (x::y)
+    elif vfmt == 'allneg': r, f = [-(a + .5), -(a + .25), -a], [-(a + 1.5), -(a + 1.25), -(a + 1)]      # no positive number anywhere
+    elif vfmt == 'allneg_mid': r, f = [-(a + .5), 0, -a], [-(a + 1.5), 0, -(a + 1)]      # written as (-x::-y)
     return r, f
 
 
 def trip(v, vfmt='float'):
     if vfmt == 'int': return '(' + ':'.join(str(int(x)) for x in v) + ')'
-    if vfmt == 'empty_fields': return '(' + ':'.join('' if x == 0 else f'{x:.3f}' for x in v) + ')'
+    if vfmt in ('empty_fields', 'allneg_mid'): return '(' + ':'.join('' if x == 0 else f'{x:.3f}' for x in v) + ')'
     return '(' + ':'.join(f'{x:.3f}' for x in v) + ')'
 
 
@@ -366,8 +368,10 @@ def run_design(res, libname, dname, bf, tier, seed):
             run(full + [io(k, n + 6, form='ef')], 'split')
             run(full + [io(k, n + 7, form='re')], 'per_inst')
             run(full + [io(k, n + 8, form='ef', edge='negedge')], 'interleaved')
-            for vf in ('int', 'neg', 'empty_fields'):
+            for vf in ('int', 'neg', 'empty_fields', 'allneg', 'allneg_mid'):
                 run(full[:k] + [io(k, k, vfmt=vf)] + full[k + 1:], 'split' if k % 2 else 'per_inst')
+            run(full[:k] + [io(k, k, vfmt='allneg', form='ef')] + full[k + 1:], 'per_inst')
+            run(full[:k] + [io(k, k, vfmt='allneg_mid', form='re', edge='posedge')] + full[k + 1:], 'per_inst')
             run(full + [io(k, n + 3)], 'split')
         # interconnects: one and two top-level blocks, mixed with iopaths, zero-valued entries
         m = len(ics)
